@@ -87,7 +87,7 @@ func init() {
 		DoesNotCover: "Visibility of the committed values themselves (that the blobs/handles written hold the right bytes) and behaviour under concrete fault schedules are not decided; only the control-flow and call-graph shape every such execution must follow.",
 	}, runC01)
 	register("C16", propMeta{
-		Explanation:  "All control-flow paths of SinglePhaseTransaction.Commit, Rollback and Begin are enumerated on the CFG: a participant's Phase2Commit is reachable only after SOP Phase1Commit, the full participant Phase1Commit loop and SOP Phase2Commit all took their success edges; every failure edge passes t.Rollback before returning; Rollback calls SOP's Rollback and then iterates over all participants with no early exit; AddPhasedTransaction is the only writer of the participant list.",
+		Explanation:  "All control-flow paths of SinglePhaseTransaction.Commit, Rollback and Begin are enumerated on the CFG: a participant's Phase2Commit is reachable only after SOP Phase1Commit, the full participant Phase1Commit loop and SOP Phase2Commit all took their success edges; every failure edge passes t.Rollback before returning; Rollback calls SOP's Rollback and then iterates over all participants with no early exit; AddPhasedTransaction is the only writer of the participant list. R2 also requires every error exit of Commit after SOP's Phase1Commit to pass t.Rollback, not only the failure edges of the phase calls.",
 		DoesNotCover: "Behaviour of the participants themselves, and what SOP's own Rollback restores (C07).",
 	}, runC16)
 }
